@@ -2,6 +2,7 @@
 (captures write/close events and answers close with disconnect), an application component and a probe for request events.
 Used by C13, C14, C15, C16, C20."""
 
+import errno
 import http.client
 import io
 import socket
@@ -86,7 +87,7 @@ class Rig:
         self.defer_disconnect = False
         self.requests = []      # probe records
         self.exceptions = []
-        self.sink = Sink(rig=self).register(self.root)
+        self.make_transport()
         rig = self
 
         class Probe(BaseComponent):
@@ -113,6 +114,12 @@ class Rig:
         if app_cls is not None:
             self.app = app_cls(**(app_kwargs or {})).register(self.root)
         self.settle()
+
+    def make_transport(self):
+        self.sink = Sink(rig=self).register(self.root)
+
+    def close(self):
+        pass
 
     def conn(self, sock):
         if sock not in self.conns:
@@ -150,6 +157,131 @@ class Rig:
 
     def out(self, sock):
         return bytes(self.conn(sock)['out'])
+
+
+class StackSock(WebSock):
+    """connection socket for StackRig: send() accepts what rig.accept(sock, data) says, recv() hands out what was fed"""
+
+    _next_no = [700]
+
+    def __init__(self, label, rig):
+        WebSock.__init__(self, label)
+        self.rig = rig
+        self.inbox = []
+        self.eof = False
+        self.is_closed = False
+        StackSock._next_no[0] += 1
+        self.no = StackSock._next_no[0]
+
+    def fileno(self):
+        return -1 if self.is_closed else self.no
+
+    def setblocking(self, flag):
+        pass
+
+    def recv(self, n):
+        if self.is_closed:
+            raise OSError(errno.EBADF, 'closed')
+        if self.inbox:
+            return self.inbox.pop(0)
+        if self.eof:
+            return b''
+        raise OSError(errno.EWOULDBLOCK, 'nothing to read')
+
+    def send(self, data):
+        st = self.rig.conn(self)
+        if self.is_closed:
+            st['write_after_close'] += 1
+            raise OSError(errno.EBADF, 'closed')
+        k = self.rig.accept(self, bytes(data))
+        st['out'] += bytes(data[:k])
+        st['writes'].append(bytes(data[:k]))
+        return k
+
+    def shutdown(self, how):
+        if self.is_closed:
+            raise OSError(errno.EBADF, 'closed')
+
+    def close(self):
+        if not self.is_closed:
+            self.is_closed = True
+            st = self.rig.conn(self)
+            st['closed'] = True
+            st['closed_at'] = len(st['out'])
+
+
+class StackRig(Rig):
+    """like Rig, but with the real TCP server component (circuits.net.sockets.TCPServer on a Select poller that is never
+    polled) between the HTTP component and the socket double: responses pass through Server.write/_on_write/_write,
+    and `accept(sock, data) -> int` decides how much of each block the OS takes."""
+
+    def __init__(self, app_cls=None, app_kwargs=None, extra=(), accept=None):
+        self.accept = accept or (lambda sock, data: len(data))
+        Rig.__init__(self, app_cls, app_kwargs, extra)
+
+    def make_transport(self):
+        from circuits.core import pollers as PL
+        from circuits.net import sockets as SK
+        self._PL = PL
+        self.poller = PL.Select().register(self.root)
+        self.tcp = SK.TCPServer(('127.0.0.1', 0), channel='web').register(self.root)
+        rig = self
+
+        class CloseCounter(BaseComponent):
+            channel = 'web'
+
+            @handler('close', priority=50)
+            def _on_close(self, sock=None):
+                if sock is not None:
+                    rig.conn(sock)['close_events'] += 1
+
+        CloseCounter().register(self.root)
+
+    def close(self):
+        try:
+            if self.tcp._sock is not None:
+                self.tcp._sock.close()
+        except Exception:
+            pass
+        import os
+        for fdn in (self.poller._ctrl_recv, self.poller._ctrl_send):
+            try:
+                os.close(fdn)
+            except Exception:
+                pass
+
+    def new_sock(self, label='s0'):
+        s = StackSock(label, self)
+        self.conn(s)
+        self.tcp._on_accept_done(s)
+        self.settle()
+        return s
+
+    def settle(self, max_ticks=60):
+        ok = Rig.settle(self, max_ticks)
+        rounds = 0
+        while rounds < 400:
+            busy = [s for s in list(self.conns) if isinstance(s, StackSock) and not s.is_closed and self.poller.isWriting(s)]
+            if not busy:
+                break
+            for s in busy:
+                self.root.fire(self._PL._write(s), 'web')
+            ok = Rig.settle(self, max_ticks) and ok
+            rounds += 1
+        return ok and rounds < 400
+
+    def feed(self, sock, data):
+        sock.inbox.append(bytes(data))
+        self.root.fire(self._PL._read(sock), 'web')
+        return self.settle()
+
+    def peer_disconnect(self, sock):
+        sock.eof = True
+        self.root.fire(self._PL._read(sock), 'web')
+        return self.settle()
+
+    def deliver_pending_disconnect(self, sock):
+        return True
 
 
 class _KeepOpen(io.BytesIO):
